@@ -111,6 +111,9 @@ static void setReal(Ctx& c, int o, const char* name, SoPlex::RealParam p, double
 
 static std::string dvec(const VectorBase<double>& v) { return jarr(v.dim(), [&](int i) { return jq(qd(v[i])); }); }
 
+// g_wellScaled: the LP data of the running workload are small integers (verdict comparisons between different solves of the
+// same LP are only meaningful then: on data spanning 2^-12..2^12 a tolerance-level OPTIMAL and an exact UNBOUNDED can both be right)
+static bool g_wellScaled = true;
 struct SolveOpts { bool limited = false; bool complete = true; std::string detKey; };
 static std::string paramsDigest(SoPlex& s)
 {
@@ -153,7 +156,7 @@ static int optimize(Ctx& c, int o, SolveOpts so, volatile bool* interrupt = null
    else r.raw("brow", "[]").raw("bcol", "[]").raw("bind", "[]");
    r.i("iters", s.numIterations()).b("interrupted", interrupt != nullptr && *interrupt);
    c.modsSinceBasis[o] = 0;
-   J ev; ev.s("a", "optimize").i("o", o).b("exact", false).b("limited", so.limited).b("complete", so.complete).s("pdig", pdig).s("detKey", so.detKey).raw("r", r.str());
+   J ev; ev.s("a", "optimize").i("o", o).b("exact", false).b("limited", so.limited).b("complete", so.complete).s("pdig", pdig).s("detKey", so.detKey).b("wellScaled", g_wellScaled).raw("r", r.str());
    emit(c, o, ev);
    return (int)st;
 }
@@ -1242,7 +1245,7 @@ static int optimizeQ(Ctx& c, int o, SolveOpts so)
    else r.raw("brow", "[]").raw("bcol", "[]");
    r.raw("bind", "[]").i("iters", s.numIterations()).i("refinements", s.numRefinements()).b("interrupted", false);
    c.modsSinceBasis[o] = 1;   // getBasisInd is not queried after exact solves
-   J ev; ev.s("a", "optimizeQ").i("o", o).b("exact", true).b("limited", so.limited).b("complete", so.complete).s("pdig", pdig).s("detKey", "").raw("r", r.str());
+   J ev; ev.s("a", "optimizeQ").i("o", o).b("exact", true).b("limited", so.limited).b("complete", so.complete).s("pdig", pdig).s("detKey", "").b("wellScaled", g_wellScaled).raw("r", r.str());
    emit(c, o, ev);
    return (int)st;
 }
@@ -1545,7 +1548,7 @@ static void wlBasis(Ctx& c, int nexec, int len)
 static int runWorkload(Ctx& c, const std::string& wl, int len)
 {
    if(wl == "mods") wlMods(c, 1, len, 0);
-   else if(wl == "mods2") wlMods(c, 1, len, 1);
+   else if(wl == "mods2") { g_wellScaled = false; wlMods(c, 1, len, 1); }
    else if(wl == "certx") { g_exotic = true; wlCert(c, 1, len, 5, 0); }
    else if(wl == "certbigx") { g_exotic = true; wlCert(c, 1, len, 14, 0); }
    else if(wl == "cert") wlCert(c, 1, len, 5, 0);
@@ -1554,18 +1557,18 @@ static int runWorkload(Ctx& c, const std::string& wl, int len)
    else if(wl == "basis") wlBasis(c, 1, len);
    else if(wl == "sync") wlSync(c, 1, len);
    else if(wl == "copy") wlCopy(c, 1, len);
-   else if(wl == "files") wlFiles(c, 1, len);
+   else if(wl == "files") { g_wellScaled = false; wlFiles(c, 1, len); }
    else if(wl == "lits") wlLits(c, g_execIndex, g_nexec);
    else if(wl == "basfile") wlBasFile(c, 1, len);
    else if(wl == "exact") wlExact(c, 1, len, 5);
    else if(wl == "exactbig") wlExact(c, 1, len, 12);
-   else if(wl == "binv") wlBinv(c, 1, len);
-   else if(wl == "scale") wlScale(c, 1, len);
+   else if(wl == "binv") { g_wellScaled = false; wlBinv(c, 1, len); }
+   else if(wl == "scale") { g_wellScaled = false; wlScale(c, 1, len); }
    else if(wl == "scalerbare") wlScalerBare(c, 1, len);
    else if(wl == "limits") wlLimits(c, 1, len, 6);
    else if(wl == "limitsbig") wlLimits(c, 1, len, 14);
    else if(wl == "certbig") wlCert(c, 1, len, 14, 0);
-   else if(wl == "certscaled") wlCert(c, 1, len, 6, 12);
+   else if(wl == "certscaled") { g_wellScaled = false; wlCert(c, 1, len, 6, 12); }
    else { fprintf(stderr, "unknown workload %s\n", wl.c_str()); return 2; }
    return 0;
 }
